@@ -22,6 +22,15 @@ EXTENDS Integers, Sequences, FiniteSets, TLC
 \*   "delete-layers-first"  delete removes the layers before the manifest
 \*   "hardlink-copy"        copy links the manifest file instead of copying it (manifests are rewritten in place)
 CONSTANT Variant
+\* Multi-part downloads (layers > 100 MB get one part file per part; two parts here) and what a repeated pull does with the
+\* part files a crash left when they were NOT pruned at restart:
+\*   BigBlobs        blob labels that are downloaded in two parts
+\*   TornPartFix     TRUE (the code since fix 4fe4b9592): an unreadable part file makes the download start over; FALSE: every
+\*                   later pull of the blob fails
+\*   KnowsLayerSize  FALSE (the code): the part files found are taken for the complete plan, so after a crash between the two
+\*                   part files only the first part is fetched and the pull fails its verification once (known finding);
+\*                   TRUE: an incomplete plan is noticed and the download starts over
+CONSTANTS BigBlobs, TornPartFix, KnowsLayerSize
 
 Ver(g, s, c) == [ok |-> TRUE, layers |-> <<g, s>>, cfg |-> c]
 Torn == [ok |-> FALSE, layers |-> <<>>, cfg |-> ""]
@@ -30,7 +39,7 @@ Put(f, k, v) == [x \in DOMAIN f \cup {k} |-> IF x = k THEN v ELSE f[x]]
 Drop(f, k) == [x \in DOMAIN f \ {k} |-> f[x]]
 Referenced(st) == UNION {BlobsOf(st.man[n]) : n \in DOMAIN st.man}
 Readable(st, n) == n \in DOMAIN st.man /\ st.man[n].ok
-NoPart == [meta |-> "none", data |-> "none"]
+NoPart == [meta |-> "none", meta2 |-> "none", data |-> "none"]
 PartOf(st, d) == IF d \in DOMAIN st.part THEN st.part[d] ELSE NoPart
 SetPart(st, d, p) == IF p = NoPart THEN [st EXCEPT !.part = Drop(@, d)] ELSE [st EXCEPT !.part = Put(@, d, p)]
 EmptyStore == [man |-> <<>>, blobs |-> {}, tmp |-> 0, part |-> <<>>, links |-> {}]
@@ -53,6 +62,9 @@ Apply(st, e, ver) ==
     [] e.o = "partmeta" /\ e.k \in {"create", "trunc"} -> SetPart(st, e.d, [PartOf(st, e.d) EXCEPT !.meta = "torn"])
     [] e.o = "partmeta" /\ e.k = "write"  -> SetPart(st, e.d, [PartOf(st, e.d) EXCEPT !.meta = "ok"])
     [] e.o = "partmeta" /\ e.k = "unlink" -> SetPart(st, e.d, [PartOf(st, e.d) EXCEPT !.meta = "none"])
+    [] e.o = "partmeta2" /\ e.k \in {"create", "trunc"} -> SetPart(st, e.d, [PartOf(st, e.d) EXCEPT !.meta2 = "torn"])
+    [] e.o = "partmeta2" /\ e.k = "write"  -> SetPart(st, e.d, [PartOf(st, e.d) EXCEPT !.meta2 = "ok"])
+    [] e.o = "partmeta2" /\ e.k = "unlink" -> SetPart(st, e.d, [PartOf(st, e.d) EXCEPT !.meta2 = "none"])
     [] e.o = "partial" /\ e.k = "create"  -> SetPart(st, e.d, [PartOf(st, e.d) EXCEPT !.data = "empty"])
     [] e.o = "partial" /\ e.k = "resize"  -> st
     [] e.o = "partial" /\ e.k = "write"   -> SetPart(st, e.d, [PartOf(st, e.d) EXCEPT !.data = "full"])
@@ -81,9 +93,31 @@ WriteMan(st, n) == IF n \notin DOMAIN st.man THEN <<E("create", "man", n), E("wr
 Download(st, d) ==
   IF d \in st.blobs THEN <<>>
   ELSE IF PartOf(st, d) # NoPart THEN <<E("resume", "blob", d)>>
+  ELSE IF d \in BigBlobs
+  THEN <<E("create", "partmeta", d), E("write", "partmeta", d), E("create", "partmeta2", d), E("write", "partmeta2", d),
+         E("create", "partial", d), E("resize", "partial", d), E("write", "partial", d),
+         E("trunc", "partmeta", d), E("write", "partmeta", d), E("trunc", "partmeta2", d), E("write", "partmeta2", d),
+         E("unlink", "partmeta", d), E("unlink", "partmeta2", d), Ren("partial", d, d)>>
   ELSE <<E("create", "partmeta", d), E("write", "partmeta", d), E("create", "partial", d), E("resize", "partial", d),
          E("write", "partial", d), E("trunc", "partmeta", d), E("write", "partmeta", d), E("unlink", "partmeta", d),
          Ren("partial", d, d)>>
+
+\* a repeated pull that finds part files of blob d (they were not pruned): what blobDownload.Prepare makes of them
+PartTorn(p) == p.meta = "torn" \/ p.meta2 = "torn"
+PartIncomplete(d, p) == d \in BigBlobs /\ p.meta = "ok" /\ p.meta2 = "none"
+\* "never": every repetition fails; "once": the first repetition fails (truncated blob, removed by the verification), the
+\* second starts from nothing; "no": the repetition succeeds
+ResumeFails(st, d) ==
+  LET p == PartOf(st, d) IN
+  IF d \in st.blobs \/ p = NoPart \/ (p.meta = "none" /\ p.meta2 = "none") THEN "no"
+  ELSE IF PartTorn(p) THEN (IF TornPartFix THEN "no" ELSE "never")
+  ELSE IF PartIncomplete(d, p) THEN (IF KnowsLayerSize THEN "no" ELSE "once")
+  ELSE "no"
+PullFails(st, op) ==
+  IF op.op # "pull" THEN "no"
+  ELSE LET ds == {op.v.layers[1], op.v.layers[2], op.v.cfg} IN
+       IF \E d \in ds : ResumeFails(st, d) = "never" THEN "never"
+       ELSE IF \E d \in ds : ResumeFails(st, d) = "once" THEN "once" ELSE "no"
 
 \* effects of storing the blobs ds one after the other, each seeing the effects of the earlier ones
 RECURSIVE NewLayers(_, _)
